@@ -198,6 +198,7 @@ func (t *FnTrans) closeChan(c *ssa.CallCommon) {
 
 func (t *FnTrans) selectInstr(x *ssa.Select) {
 	t.abstr["select"] = true
+	t.ghostAt("before select") // ghost statements attached to the select statements of this function
 	t.havocVal(x)
 	// index result is within range
 	tv := t.vals[x]
